@@ -8,8 +8,11 @@
   (`verify_complete`), the deserialiser refuses to set a key that is already there.
   The bit layer is a parameter (`Codec`): any prefix code per primitive kind; the instance built
   from the C20 model is `VC2.Proofs.Serdes.bitCodec`.
-  Not modelled: set_context_type (contexts are plain dictionaries), default_values lookup
-  (a missing value is an error here), bounded-block bodies that overrun their block, io errors.
+  Bounded blocks have the semantics of (A.4.2): inside a block, bits past its end read as 1 and only
+  1-bits may be written there (`blk` = "inside a bounded block"); nested blocks are refused as in the
+  real code, `byte_align` inside a block is not modelled (refused), and bit positions are not tracked
+  inside a block (nothing there may depend on them).
+  Not modelled: default_values lookup (a missing value is an error here), io errors.
 -/
 namespace VC2.Model.Serdes
 
@@ -46,6 +49,8 @@ inductive Stmt
 structure Codec where
   enc : Prim → Leaf → Option (List Bool)
   dec : Prim → List Bool → Option (Leaf × List Bool)
+  /-- the most 1-bits a value of this kind can take from beyond the end of a bounded block -/
+  virt : Prim → Nat
 
 def Dict.get? (d : Dict) (k : String) : Option Val := (d.find? (·.1 == k)).map (·.2)
 def Dict.erase (d : Dict) (k : String) : Dict := d.filter (·.1 != k)
@@ -76,91 +81,104 @@ mutual
 /-- serialise one statement at bit position `pos`: `d` is the not-yet-used part of the current
     context, `acc` the part already used (in program order).  Returns the bits, the new `acc`
     and the new `d`. -/
-def serStmt : Nat → Stmt → Dict → Dict → Option (List Bool × Dict × Dict)
-  | _, .prim t k, d, acc =>
+def serStmt : Bool → Nat → Stmt → Dict → Dict → Option (List Bool × Dict × Dict)
+  | _, _, .prim t k, d, acc =>
     match d.get? t with
     | some (.leaf v) => match C.enc k v with
       | some b => some (b, acc ++ [(t, .leaf v)], d.erase t)
       | none => none
     | _ => none
-  | _, .primList t ks, d, acc =>
+  | _, _, .primList t ks, d, acc =>
     match fetch d acc t (.list []) with
     | some (.list vs) => match serPrims C ks vs with
       | some b => some (b, acc ++ [(t, .list vs)], d.erase t)
       | none => none
     | _ => none
-  | pos, .sub t body, d, acc =>
+  | blk, pos, .sub t body, d, acc =>
     match fetch d acc t (.dict []) with
-    | some (.dict d') => match serBody pos body d' [] with
+    | some (.dict d') => match serBody blk pos body d' [] with
       | some (b, used, []) => some (b, acc ++ [(t, .dict used)], d.erase t)
       | _ => none                                  -- something left in the subcontext: UnusedTarget
     | _ => none
-  | pos, .subList t bodies, d, acc =>
+  | blk, pos, .subList t bodies, d, acc =>
     match fetch d acc t (.list []) with
-    | some (.list vs) => match serBodies pos bodies vs with
+    | some (.list vs) => match serBodies blk pos bodies vs with
       | some (b, used) => some (b, acc ++ [(t, .list used)], d.erase t)
       | none => none
     | _ => none
-  | pos, .block t len body, d, acc =>
-    match serBody pos body d acc with
+  | true, _, .block _ _ _, _, _ => none              -- nested bounded blocks are not supported
+  | false, pos, .block t len body, d, acc =>
+    match serBody true pos body d acc with
     | some (b, acc1, d1) =>
-      if b.length ≤ len then
-        -- the padding target: a bit array of exactly the unused length
+      -- only 1-bits may be written past the end of the block (they are not stored)
+      if (b.drop len).all id then
+        -- the padding target: a bit array of exactly the unused length (empty after an overrun)
         match d1.get? t with
         | some (.leaf (.bits p)) =>
-          if p.length = len - b.length then some (b ++ p, acc1 ++ [(t, .leaf (.bits p))], d1.erase t) else none
+          if p.length = len - b.length then some (b.take len ++ p, acc1 ++ [(t, .leaf (.bits p))], d1.erase t) else none
         | _ => none
-      else none                                    -- overrun: not modelled
+      else none
     | none => none
-  | pos, .align t, d, acc =>
+  | true, _, .align _, _, _ => none                  -- byte_align inside a bounded block: not modelled
+  | false, pos, .align t, d, acc =>
     match d.get? t with
     | some (.leaf (.bits p)) =>
       if p.length = alignBits pos then some (p, acc ++ [(t, .leaf (.bits p))], d.erase t) else none
     | _ => none
-  | _, .computed t v, d, acc =>
+  | _, _, .computed t v, d, acc =>
     -- "any existing value in the context will be overwritten"; a target that was already
     -- accessed is a ReusedTargetError
     if acc.has t then none else some ([], acc ++ [(t, .leaf (.int v))], d.erase t)
-def serBody : Nat → List Stmt → Dict → Dict → Option (List Bool × Dict × Dict)
-  | _, [], d, acc => some ([], acc, d)
-  | pos, s :: rest, d, acc =>
-    match serStmt pos s d acc with
+def serBody : Bool → Nat → List Stmt → Dict → Dict → Option (List Bool × Dict × Dict)
+  | _, _, [], d, acc => some ([], acc, d)
+  | blk, pos, s :: rest, d, acc =>
+    match serStmt blk pos s d acc with
     | some (b, acc1, d1) =>
-      match serBody (pos + b.length) rest d1 acc1 with
+      match serBody blk (if blk then pos else pos + b.length) rest d1 acc1 with
       | some (bs, acc2, d2) => some (b ++ bs, acc2, d2)
       | none => none
     | none => none
-def serBodies : Nat → List (List Stmt) → List Val → Option (List Bool × List Val)
-  | _, [], [] => some ([], [])
-  | pos, body :: bodies, (.dict d) :: vs =>
-    match serBody pos body d [] with
+def serBodies : Bool → Nat → List (List Stmt) → List Val → Option (List Bool × List Val)
+  | _, _, [], [] => some ([], [])
+  | blk, pos, body :: bodies, (.dict d) :: vs =>
+    match serBody blk pos body d [] with
     | some (b, used, []) =>
-      match serBodies (pos + b.length) bodies vs with
+      match serBodies blk (if blk then pos else pos + b.length) bodies vs with
       | some (bs, useds) => some (b ++ bs, .dict used :: useds)
       | none => none
     | _ => none
-  | pos, body :: bodies, [] =>
+  | blk, pos, body :: bodies, [] =>
     -- the list is shorter than the program: missing sub-descriptions are created empty
-    match serBody pos body [] [] with
+    match serBody blk pos body [] [] with
     | some (b, used, []) =>
-      match serBodies (pos + b.length) bodies [] with
+      match serBodies blk (if blk then pos else pos + b.length) bodies [] with
       | some (bs, useds) => some (b ++ bs, .dict used :: useds)
       | none => none
     | _ => none
-  | _, _, _ => none
+  | _, _, _, _ => none
 end
 
 /-- `with Serialiser(...)`: the whole description must have been used -/
 def serialise (prog : List Stmt) (d : Dict) : Option (List Bool × Dict) :=
-  match serBody C 0 prog d [] with
+  match serBody C false 0 prog d [] with
   | some (b, used, []) => some (b, used)
   | _ => none
 
-def desPrims : List Prim → List Bool → Option (List Val × List Bool)
+/-- read one primitive; inside a bounded block (`blk`) the bits past its end read as 1: the value is
+    decoded from the remaining bits of the block followed by as many 1-bits as a value of this kind
+    can take, and what is left of the REAL bits is returned -/
+def decPrim (blk : Bool) (k : Prim) (bits : List Bool) : Option (Leaf × List Bool) :=
+  if blk then
+    match C.dec k (bits ++ List.replicate (C.virt k) true) with
+    | some (v, rest) => some (v, rest.take (rest.length - C.virt k))
+    | none => none
+  else C.dec k bits
+
+def desPrims (blk : Bool) : List Prim → List Bool → Option (List Val × List Bool)
   | [], bits => some ([], bits)
   | k :: ks, bits =>
-    match C.dec k bits with
-    | some (v, rest) => match desPrims ks rest with
+    match decPrim C blk k bits with
+    | some (v, rest) => match desPrims blk ks rest with
       | some (vs, rest') => some (.leaf v :: vs, rest')
       | none => none
     | none => none
@@ -168,57 +186,59 @@ def desPrims : List Prim → List Bool → Option (List Val × List Bool)
 mutual
 /-- deserialise one statement at bit position `pos` into the context built so far (`acc`, in
     program order): setting a key that is already there is a ReusedTargetError -/
-def desStmt : Nat → Stmt → Dict → List Bool → Option (Dict × List Bool)
-  | _, .prim t k, acc, bits =>
+def desStmt : Bool → Nat → Stmt → Dict → List Bool → Option (Dict × List Bool)
+  | blk, _, .prim t k, acc, bits =>
     if acc.has t then none else
-    match C.dec k bits with
+    match decPrim C blk k bits with
     | some (v, rest) => some (acc ++ [(t, .leaf v)], rest)
     | none => none
-  | _, .primList t ks, acc, bits =>
+  | blk, _, .primList t ks, acc, bits =>
     if acc.has t then none else
-    match desPrims C ks bits with
+    match desPrims C blk ks bits with
     | some (vs, rest) => some (acc ++ [(t, .list vs)], rest)
     | none => none
-  | pos, .sub t body, acc, bits =>
+  | blk, pos, .sub t body, acc, bits =>
     if acc.has t then none else
-    match desBody pos body [] bits with
+    match desBody blk pos body [] bits with
     | some (d', rest) => some (acc ++ [(t, .dict d')], rest)
     | none => none
-  | pos, .subList t bodies, acc, bits =>
+  | blk, pos, .subList t bodies, acc, bits =>
     if acc.has t then none else
-    match desBodies pos bodies bits with
+    match desBodies blk pos bodies bits with
     | some (vs, rest) => some (acc ++ [(t, .list vs)], rest)
     | none => none
-  | pos, .block t len body, acc, bits =>
+  | true, _, .block _ _ _, _, _ => none
+  | false, pos, .block t len body, acc, bits =>
     if bits.length < len then none else               -- EOF inside the block
-    match desBody pos body acc (bits.take len) with
+    match desBody true pos body acc (bits.take len) with
     | some (acc1, left) =>
       if acc1.has t then none else some (acc1 ++ [(t, .leaf (.bits left))], bits.drop len)
     | none => none
-  | pos, .align t, acc, bits =>
+  | true, _, .align _, _, _ => none
+  | false, pos, .align t, acc, bits =>
     if acc.has t then none else
     if bits.length < alignBits pos then none else
     some (acc ++ [(t, .leaf (.bits (bits.take (alignBits pos))))], bits.drop (alignBits pos))
-  | _, .computed t v, acc, bits =>
+  | _, _, .computed t v, acc, bits =>
     if acc.has t then none else some (acc ++ [(t, .leaf (.int v))], bits)
-def desBody : Nat → List Stmt → Dict → List Bool → Option (Dict × List Bool)
-  | _, [], acc, bits => some (acc, bits)
-  | pos, s :: rest, acc, bits =>
-    match desStmt pos s acc bits with
-    | some (acc1, bits1) => desBody (pos + (bits.length - bits1.length)) rest acc1 bits1
+def desBody : Bool → Nat → List Stmt → Dict → List Bool → Option (Dict × List Bool)
+  | _, _, [], acc, bits => some (acc, bits)
+  | blk, pos, s :: rest, acc, bits =>
+    match desStmt blk pos s acc bits with
+    | some (acc1, bits1) => desBody blk (if blk then pos else pos + (bits.length - bits1.length)) rest acc1 bits1
     | none => none
-def desBodies : Nat → List (List Stmt) → List Bool → Option (List Val × List Bool)
-  | _, [], bits => some ([], bits)
-  | pos, body :: bodies, bits =>
-    match desBody pos body [] bits with
+def desBodies : Bool → Nat → List (List Stmt) → List Bool → Option (List Val × List Bool)
+  | _, _, [], bits => some ([], bits)
+  | blk, pos, body :: bodies, bits =>
+    match desBody blk pos body [] bits with
     | some (d, bits1) =>
-      match desBodies (pos + (bits.length - bits1.length)) bodies bits1 with
+      match desBodies blk (if blk then pos else pos + (bits.length - bits1.length)) bodies bits1 with
       | some (vs, rest) => some (.dict d :: vs, rest)
       | none => none
     | none => none
 end
 
 def deserialise (prog : List Stmt) (bits : List Bool) : Option (Dict × List Bool) :=
-  desBody C 0 prog [] bits
+  desBody C false 0 prog [] bits
 
 end VC2.Model.Serdes
